@@ -101,29 +101,74 @@ def enc_case(edges, ops):
 
 
 # ------------------------------------------------------------------ running the real class
+def _integral(v):
+    return v == v and abs(v) < 2.0 ** 53 and float(v).is_integer()
+
+
+def _scalar(v, how):
+    """the number v in the representation the caller uses: Python float / int / bool, numpy float64 / int64 / int32 /
+    float32 scalar.  Falls back to float when v has no exact representation of that kind (the VALUE never changes)."""
+    if how == "int" and _integral(v):
+        return int(v)
+    if how == "np":
+        return np.float64(v)
+    if how == "npint" and _integral(v):
+        return np.int64(v)
+    if how == "npint32" and _integral(v) and abs(v) < 2 ** 31:
+        return np.int32(v)
+    if how == "np32" and v == v and float(np.float32(v)) == v:
+        return np.float32(v)
+    if how == "bool" and v in (0.0, 1.0):
+        return bool(v)
+    return float(v)
+
+
+SCALAR_HOWS = ("float", "int", "np", "npint", "npint32", "np32", "bool")
+CONTAINER_HOWS = ("list", "array", "ints", "mixed", "intarray", "int32array", "f32array", "npscalars", "bools")
+
+
 def _container(vals, how):
-    """the argument container the caller uses: python list / numpy array / list of ints when integral"""
+    """the argument container the caller uses: Python list of floats / of ints / of ints where integral (mixed) / of
+    bools / of numpy scalars, numpy float64 / int64 / int32 / float32 array.  Falls back to the float flavour when the
+    values have no exact representation of that kind."""
     if how == "array":
         return np.array(vals, dtype=float)
-    if how == "ints" and all(v == v and abs(v) < 2.0 ** 53 and float(v).is_integer() for v in vals):
+    if how == "ints" and all(_integral(v) for v in vals):
         return [int(v) for v in vals]
+    if how == "mixed":
+        return [int(v) if _integral(v) else float(v) for v in vals]
+    if how == "bools" and all(v in (0.0, 1.0) for v in vals):
+        return [bool(v) for v in vals]
+    if how == "npscalars":
+        return [np.float64(v) for v in vals]
+    if how == "intarray" and all(_integral(v) for v in vals):
+        return np.array([int(v) for v in vals], dtype=np.int64)
+    if how == "int32array" and all(_integral(v) and abs(v) < 2 ** 31 for v in vals):
+        return np.array([int(v) for v in vals], dtype=np.int32)
+    if how == "f32array" and all(v == v and float(np.float32(v)) == v for v in vals):
+        return np.array(vals, dtype=np.float32)
+    if how in ("intarray", "int32array", "f32array"):
+        return np.array(vals, dtype=float)
     return [float(v) for v in vals]
+
+
+def _hows(op):
+    """(representation of the first argument, representation of the weight argument) of an op"""
+    s = op[-1] if len(op) > 1 and isinstance(op[-1], str) and op[0] in ("f", "fl", "sc", "sl", "er", "sy", "aw") else "list"
+    a, _, b = s.partition("|")
+    return a, (b or ("array" if a == "array" else "list"))
 
 
 def apply_op(h, op, tmpdir=None):
     """apply one op to a real Histogram; returns extra observation (for 'wr') or None; raises what the code raises"""
     k = op[0]
-    how = op[-1] if isinstance(op[-1], str) and op[-1] in ("list", "array", "ints", "np", "int", "float") else "list"
+    how, whow = _hows(op)
     if k == "f":
-        v = op[1]
-        if how == "np":
-            v = np.float64(v)
-        elif how == "int" and v == v and abs(v) < 2.0 ** 53 and float(v).is_integer():
-            v = int(v)
+        v = _scalar(op[1], how)
         if op[2] is None:
             h.add_value(v)
         else:
-            h.add_value(v, weight=op[2])
+            h.add_value(v, weight=_scalar(op[2], whow if whow in SCALAR_HOWS else "float"))
     elif k == "fl":
         vals = _container(op[1], how)
         w = op[2]
@@ -132,11 +177,11 @@ def apply_op(h, op, tmpdir=None):
         elif w[0] == "s":
             h.add_value(vals, weight=w[1])
         else:
-            h.add_value(vals, weight=_container(w[1], "array" if how == "array" else "list"))
+            h.add_value(vals, weight=_container(w[1], whow))
     elif k == "ah":
         h.add_histogram()
     elif k == "sc":
-        h.scale_histogram(int(op[1]) if how == "int" and float(op[1]).is_integer() else op[1])
+        h.scale_histogram(_scalar(op[1], how))
     elif k == "sl":
         h.scale_histogram(_container(op[1], how))
     elif k == "se":
@@ -209,13 +254,45 @@ def observe(h):
                 left=[float(x) for x in h.bin_bounds_left()], right=[float(x) for x in h.bin_bounds_right()])
 
 
+LIST_REPS = ("float", "int", "mixed", "np", "npint")
+ARRAY_REPS = ("float64", "int64", "int32", "float32")
+TUPLE_REPS = ("as-is", "int", "float", "np", "npint")      # (float32 end points make np.linspace work in single precision)
+
+
 def make_hist(ctor):
+    """ctor = ("tuple", lo, hi, n[, rep]) | ("list", edges[, rep]) | ("array", edges[, rep]): the same binning in the
+    representation `rep` the caller uses (Python ints / floats / mixed, numpy scalars, int64 / int32 / float32 / float64
+    arrays).  A representation that cannot hold the edges exactly falls back to floats: the VALUES never change."""
     H = Histogram()
     if ctor[0] == "tuple":
-        return H((ctor[1], ctor[2], ctor[3]))
+        rep = ctor[4] if len(ctor) > 4 else "as-is"
+        lo, hi = (ctor[1], ctor[2]) if rep == "as-is" else (_scalar(ctor[1], rep), _scalar(ctor[2], rep))
+        return H((lo, hi, ctor[3]))
+    rep = ctor[2] if len(ctor) > 2 else None
+    es = [float(e) for e in ctor[1]]
     if ctor[0] == "array":
-        return H(np.array(ctor[1], dtype=float))
-    return H([float(e) for e in ctor[1]])
+        if rep == "int64" and all(_integral(e) for e in es):
+            return H(np.array([int(e) for e in es], dtype=np.int64))
+        if rep == "int32" and all(_integral(e) and abs(e) < 2 ** 31 for e in es):
+            return H(np.array([int(e) for e in es], dtype=np.int32))
+        if rep == "float32" and all(float(np.float32(e)) == e for e in es):
+            return H(np.array(es, dtype=np.float32))
+        return H(np.array(es, dtype=float))
+    if rep in ("int", "mixed"):
+        return H([int(e) if _integral(e) else e for e in es])
+    if rep in ("np", "npint"):
+        return H([_scalar(e, rep) for e in es])
+    return H(es)
+
+
+def ctor_flavour(ctor):
+    """for the distribution histogram: kind / representation / dtype class of the edges the object ends up with"""
+    try:
+        dt = make_hist(ctor).bin_edges_.dtype
+    except Exception:  # noqa: BLE001
+        dt = "?"
+    rep = (ctor[4] if len(ctor) > 4 else "as-is") if ctor[0] == "tuple" else (ctor[2] if len(ctor) > 2 else "float")
+    return f"{ctor[0]}/{rep}/edges-{dt}"
 
 
 def run_real(ctor, ops):
@@ -351,20 +428,29 @@ def compare_history(ctor, ops, answer, arrays=("hist", "raw", "err", "scal", "sy
 
 # ------------------------------------------------------------------ generators
 def gen_ctor(rng, max_bins=8, min_bins=1):
+    """every binning flavour, each also in integer / single-precision / mixed representation"""
     n = rng.randint(min_bins, max_bins)
     r = rng.random()
     if r < 0.3:   # uniform tuple
         lo = rng.choice([0, 0.0, -2.5, 1.0, -8, 0.125, -0.75])
         span = rng.choice([1, 2, 3, 0.5, 10, 7, 1.7])
-        return ("tuple", lo, lo + span, n)
-    steps = [rng.choice([0.25, 0.5, 1.0, 1.5, 2.0, 3.0, 0.125, 5.0]) for _ in range(n)]
-    if r < 0.4:
-        steps = [1.0] * n          # explicit unit widths
-    lo = rng.choice([0.0, -3.0, 2.0, -0.5, -10.25])
+        return ("tuple", lo, lo + span, n, rng.choice(TUPLE_REPS))
+    if rng.random() < 0.4:      # all-integer edges: the binnings a user types as [0, 1, 2, 5] or np.arange(5)
+        steps = [rng.choice([1.0, 1.0, 2.0, 3.0, 5.0]) for _ in range(n)]
+        if rng.random() < 0.4:
+            steps = [1.0] * n
+        lo = rng.choice([0.0, -3.0, 2.0, 1.0, -10.0])
+    else:
+        steps = [rng.choice([0.25, 0.5, 1.0, 1.5, 2.0, 3.0, 0.125, 5.0]) for _ in range(n)]
+        if r < 0.4:
+            steps = [1.0] * n          # explicit unit widths
+        lo = rng.choice([0.0, -3.0, 2.0, -0.5, -10.25])
     edges = [lo]
     for s in steps:
         edges.append(edges[-1] + s)
-    return ("array" if rng.random() < 0.4 else "list", edges)
+    if rng.random() < 0.4:
+        return ("array", edges, rng.choice(ARRAY_REPS))
+    return ("list", edges, rng.choice(LIST_REPS))
 
 
 def gen_value(rng, edges, nan_ok=True):
@@ -398,7 +484,7 @@ def gen_fill(rng, edges):
     if r < 0.35:
         v = gen_value(rng, edges)
         w = None if rng.random() < 0.5 else gen_weight(rng, nan_ok=True)
-        return ("f", v, w, rng.choice(["float", "np", "int"]))
+        return ("f", v, w, rng.choice(SCALAR_HOWS) + "|" + rng.choice(SCALAR_HOWS))
     n = rng.choice([0, 1, 2, 3, 4, 6])
     vs = [gen_value(rng, edges, nan_ok=rng.random() < 0.15) for _ in range(n)]
     r = rng.random()
@@ -409,17 +495,17 @@ def gen_fill(rng, edges):
     else:
         m = n if rng.random() < 0.9 else n + rng.choice([1, -1]) if n else 1
         w = ("l", [gen_weight(rng, nan_ok=rng.random() < 0.3) for _ in range(max(m, 0))])
-    return ("fl", vs, w, rng.choice(["list", "array", "ints"]))
+    return ("fl", vs, w, rng.choice(CONTAINER_HOWS) + "|" + rng.choice(CONTAINER_HOWS))
 
 
 def gen_scale(rng, nbins):
     if rng.random() < 0.6:
-        return ("sc", rng.choice([2.0, 0.5, 3.0, 1.0, 0.0, 0.25, -1.0, 4.0, 1.5]), rng.choice(["float", "int"]))
+        return ("sc", rng.choice([2.0, 0.5, 3.0, 1.0, 0.0, 0.25, -1.0, 4.0, 1.5]), rng.choice(SCALAR_HOWS[:-1]))
     n = nbins if rng.random() < 0.85 else nbins + rng.choice([1, -1])
     cs = [rng.choice([1.0, 2.0, 0.5, 0.0, 3.0, 0.25]) for _ in range(max(n, 0))]
     if rng.random() < 0.08 and cs:
         cs[rng.randrange(len(cs))] = -1.0
-    return ("sl", cs, rng.choice(["list", "array"]))
+    return ("sl", cs, rng.choice(CONTAINER_HOWS[:-2]))
 
 
 def gen_history_c09(rng, edges, density=True):
@@ -718,7 +804,7 @@ def correspond(ctx):
             ctx.count("op/" + o[0])
         for t, _ in real:
             ctx.count("outcome/" + t)
-        ctx.count("ctor/" + ctor[0])
+        ctx.count("ctor/" + ctor_flavour(ctor))
         ctx.count(f"bins/{len(edges) - 1}")
         if diff:
             ndiff += 1
